@@ -171,8 +171,11 @@ CHECKS = {
              'the handler recording kind and address; RESUME re-enters the failed statement, RESUME NEXT its end, both leave the '
              'handler; ON ERROR RESUME NEXT skips; ON ERROR GOTO 0 restores fatal reporting. Lock-step correspondence on every '
              'tick of generated handler programs; the "as if not started" clause is decided by comparing each handler program with '
-             'its straight-line reference program (trace, outcome, final stack depth) - not a theorem: it is false on this tree '
-             '(known finding: operand stack not restored).',
+             'its straight-line reference program (trace, outcome, final stack depth); its stack part - none of the failed '
+             'statement\'s partial results remain - is proved over Model/StmtDepth.lean (GOSUB return addresses marked; a handled '
+             'error cuts the stack back to the innermost one: the depth C03 prescribes at a statement boundary; a failed statement '
+             'leaves the state exactly as it found it; the module-level handler starts at the boundary its statement started at) '
+             'and tied to every tick of those runs by the sdepth stream (the former known finding, repaired in /repo).',
         design_ref='DESIGN.md section 9 C10',
         note=BASE_NOTE + 'Statement ranges come from find_stmt (C11) as a parameter of the tick model.',
         technique='Lean 4 theorems over a tick/trap model + lock-step correspondence + reference-program oracle'),
